@@ -44,6 +44,12 @@ class DG:
             return [[S("lambda"), [], t]]
         return [S("begin"), t]
 
+    def many(self, lo, hi):
+        """how many sub-forms: usually lo..hi, now and then several times as many (long cond/case/and/or/let/begin forms)"""
+        if self.rng.random() < 0.03:
+            return hi * self.rng.choice([4, 8])
+        return self.rng.randint(lo, hi)
+
     def var(self):
         if self.rng.random() < self.capture_rate:
             return self.rng.choice(CAPTURE_PRONE)
@@ -75,10 +81,10 @@ class DG:
         r = self.rng
         sub = lambda pos, e=None: (fill(pos, e if e is not None else env) or self.leaf(e if e is not None else env))
         if form == "begin":
-            n = r.randint(0, 2) if r.random() > self.minimal_rate else 0
+            n = self.many(0, 2) if r.random() > self.minimal_rate else 0
             return [S("begin")] + [sub("first") for _ in range(n)] + [sub("last")]
         if form in ("let", "let*"):
-            nb = r.randint(1, 3) if r.random() > self.minimal_rate else 0
+            nb = self.many(1, 3) if r.random() > self.minimal_rate else 0
             names, binds, scope = [], [], list(env)
             for i in range(nb):
                 v = r.choice(env) if (env and r.random() < 0.3) else self.var()      # shadowing of outer variables
@@ -105,7 +111,7 @@ class DG:
                 return [S("list"), expr] + [S(v) for v in env[:3]]
             return expr
         if form == "cond":
-            n = r.randint(1, 4)
+            n = self.many(1, 4)
             sel = r.randrange(n + 1)      # n = fall through to else / nothing
             clauses = []
             for i in range(n):
@@ -128,7 +134,7 @@ class DG:
                 clauses.append([S("else")] + [sub("else-body") for _ in range(nb)] + [sub("else-body")])
             return [S("cond")] + clauses
         if form == "case":
-            n = r.randint(1, 3)
+            n = self.many(1, 3)
             keyval = r.randint(0, 6)
             key = fill("key", env)
             key = [S("begin"), key, self.tk(keyval)] if key is not None else self.tk(keyval)
@@ -153,7 +159,7 @@ class DG:
                 clauses.append([S("else"), S("=>"), fill("else-arrow-receiver", env) or self.proc_leaf(env, self.leaf)])
             return [S("case"), key] + clauses
         if form in ("and", "or"):
-            n = r.randint(1, 4) if r.random() > self.minimal_rate else r.randint(0, 1)
+            n = self.many(1, 4) if r.random() > self.minimal_rate else r.randint(0, 1)
             stop = r.randrange(n + 1)
             ops = []
             for i in range(n):
